@@ -137,6 +137,33 @@ def _ser(g, scale):
         g.emit("dig %s" % x)
 
 
+@suite("serall")
+def _serall(g, scale):
+    """C05 at the top of the quantifier: bitmaps occupying 65535 / 65536 chunks, with and without a run chunk (the run-capable
+    cookie stores the count minus one in 16 bits; the plain cookie stores it in 32 bits)"""
+    r = g.r
+    cases = [(65536, True), (65536, False), (65535, True)]
+    if scale < 2:
+        cases = [cases[0]]
+    for n, withrun in cases:
+        x = g.fresh("w")
+        g.emit("new %s" % x)
+        g.emit("addstride %s %d 65536 %d" % (x, r.choice([0, 7, 65535]), n))
+        if withrun:
+            k = r.choice([0, 1, 40000, n - 1])
+            g.emit("addr %s %d %d" % (x, k * 65536 + 10, k * 65536 + 300))
+            g.emit("opt %s" % x)
+        g.emit("card %s" % x)
+        g.emit("ser %s" % x)
+        for e in ENTRIES:
+            y = g.fresh()
+            g.emit("rd %s %s %s%s" % (y, e, x, " extra=5" if e in ("readfrom", "frombuffer", "fromunsafe") else ""))
+            g.emit("card %s" % y)
+        g.emit("add %s %d" % (y, 12345))
+        g.emit("wf %s" % y)
+        g.count("serall:%d:%s" % (n, "run" if withrun else "norun"))
+
+
 @suite("spec")
 def _spec(g, scale):
     """C06: write direction rides on `ser` lines (spec-decode of the written bytes); read direction: conformant streams
